@@ -663,17 +663,17 @@ impl Operation {
             // s        1001 0100 1sss 1000
             Operation::Bclr => Info {
                 len: 1,
-                op_code: 0xfa00,
+                op_code: 0x9488,
             },
             // Rr, b    1111 101r rrrr 0bbb
             Operation::Bst => Info {
                 len: 1,
-                op_code: 0xf800,
+                op_code: 0xfa00,
             },
             // Rd, b    1111 100d dddd 0bbb
             Operation::Bld => Info {
                 len: 1,
-                op_code: 0x9488,
+                op_code: 0xf800,
             },
             //          1001 0100 0sss 1000
             Operation::Se(_) => Info {
